@@ -688,3 +688,113 @@ Proof.
     destruct (try_send nt s c it) as [s1| |] eqn:Hts; try discriminate. injection H as <-.
     apply shape_try_send with (nt := nt) in Hts; auto.
 Qed.
+
+(* ------------------------------------------------------------------ init, step, reachable *)
+Lemma node_init : forall nt n, node (init nt) n = init_node (info nt n).
+Proof.
+  intros. unfold node, init, info; cbn [nodes]. change dummy_ns with (init_node dummy_info). apply map_nth.
+Qed.
+
+Lemma nth_error_repeat : forall A (a b : A) k w, nth_error (repeat a k) w = Some b -> b = a.
+Proof. intros. apply nth_error_In in H. apply repeat_spec in H. auto. Qed.
+
+Lemma filter_repeat_false : forall A (f : A -> bool) a k, f a = false -> filter f (repeat a k) = [].
+Proof. induction k; cbn; intros; auto. rewrite H. auto. Qed.
+
+Lemma shape_init : forall nt, inv_shape nt (init nt).
+Proof.
+  intros. split.
+  - unfold init; cbn [nodes]. apply map_length.
+  - intros n Hn. rewrite node_init. cbn [ws init_node]. apply repeat_length.
+Qed.
+
+Lemma life'_init : forall nt, inv_life' nt (init nt).
+Proof.
+  intros nt. constructor.
+  - intros n Hn. unfold node_ok. rewrite node_init. cbn [ws once closed q inflight init_node init cbs existsb].
+    constructor; try congruence; try (intros; split; reflexivity).
+    + intros w st H Hp. apply nth_error_repeat in H. subst. discriminate.
+    + rewrite filter_repeat_false; auto.
+    + intros w H. apply nth_error_repeat in H. discriminate.
+    + intros w p H. apply nth_error_repeat in H. discriminate.
+    + intros w st w' st' H Hl. apply nth_error_repeat in H. subst. discriminate.
+  - intros n c Hn Hc. rewrite node_init. cbn. discriminate.
+  - intros r Hr. rewrite node_init. cbn. discriminate.
+  - intros cb [].
+  - intros it rs E. discriminate.
+  - cbn. discriminate.
+Qed.
+
+Theorem life'_step : forall nt T s a s', wf_net nt = true -> inv_shape nt s -> inv_life' nt s ->
+  step nt T s a = Ok s' -> inv_life' nt s'.
+Proof.
+  intros nt T s a s' Hwf Hs I H.
+  destruct a;
+    try (eapply life_simple; eauto; exact Logic.I).
+  - eapply life_MainSend; eauto.
+  - eapply life_MainCloseRoots; eauto.
+  - eapply life_Deq; eauto.
+  - eapply life_Return; eauto.
+  - eapply life_SendW; eauto.
+  - eapply life_SeeClosed; eauto.
+  - eapply life_LastOut; eauto.
+  - eapply life_OnceEnter; eauto.
+  - eapply life_ShutdownReturn; eauto.
+  - eapply life_CloseKids; eauto.
+  - eapply life_OnceSkip; eauto.
+  - eapply life_Callback; eauto.
+  - eapply life_SendC; eauto.
+Qed.
+
+Lemma run_inv : forall nt T sch s s', wf_net nt = true -> inv_shape nt s -> inv_life' nt s ->
+  run nt T s sch = Ok s' -> inv_shape nt s' /\ inv_life' nt s'.
+Proof.
+  induction sch as [|a sch IH]; intros s s' Hwf Hs I H; cbn [run] in H.
+  - injection H as <-. auto.
+  - destruct (step nt T s a) as [s1| |] eqn:Hst; try discriminate.
+    apply (IH s1 s'); auto.
+    + eapply shape_step; eauto.
+    + eapply life'_step; eauto.
+Qed.
+
+Theorem life'_reachable : forall nt T s, wf_net nt = true -> reachable nt T s -> inv_shape nt s /\ inv_life' nt s.
+Proof.
+  intros nt T s Hwf [sch H]. eapply run_inv; eauto. apply shape_init. apply life'_init.
+Qed.
+
+(* ------------------------------------------------------------------ inv_life' implies inv_life *)
+Theorem inv_life'_life : forall nt s, inv_life' nt s -> inv_life nt s.
+Proof.
+  intros nt s [A B C D E F]. unfold inv_life. repeat split.
+  - intros n Hn Ho. apply forallb_of_nth_error. intros i a Hi. eapply (n1 _ _ _ _ _ _ _ _ (A n Hn)); eauto.
+  - apply existsb_to_nth_error in H0. destruct H0 as (i & a & Hi & Hp).
+    eapply (n2 _ _ _ _ _ _ _ _ (A n H)); eauto.
+  - apply existsb_to_nth_error in H0. destruct H0 as (i & a & Hi & Hp).
+    eapply (n2 _ _ _ _ _ _ _ _ (A n H)); eauto.
+  - intros n Hn. apply (n3 _ _ _ _ _ _ _ _ (A n Hn)).
+  - intros n Hn He. apply existsb_to_nth_error in He. destruct He as (i & a & Hi & Hp).
+    destruct a; try discriminate. eapply (n4 _ _ _ _ _ _ _ _ (A n Hn)); eauto.
+  - destruct H0 as [Ho|He].
+    + apply (n5a _ _ _ _ _ _ _ _ (A n H) Ho).
+    + apply existsb_to_nth_error in He. destruct He as (i & a & Hi & Hp).
+      destruct a; try discriminate. eapply (n5b _ _ _ _ _ _ _ _ (A n H)); eauto.
+  - destruct H0 as [Ho|He].
+    + apply (n5a _ _ _ _ _ _ _ _ (A n H) Ho).
+    + apply existsb_to_nth_error in He. destruct He as (i & a & Hi & Hp).
+      destruct a; try discriminate. eapply (n5b _ _ _ _ _ _ _ _ (A n H)); eauto.
+  - exact B.
+  - exact C.
+  - apply (D cb H).
+  - apply (D cb H).
+  - eapply (n9 _ _ _ _ _ _ _ _ (A n H)); eauto.
+  - eapply (n9 _ _ _ _ _ _ _ _ (A n H)); eauto.
+  - intros cb d Hcb Hd. apply (D cb Hcb); auto.
+  - eapply E; eauto.
+  - eapply E; eauto.
+Qed.
+
+Theorem life_inv_init : forall nt, wf_net nt = true -> inv_life nt (init nt).
+Proof. intros. apply inv_life'_life. apply life'_init. Qed.
+
+Theorem life_inv_reachable : forall nt T s, wf_net nt = true -> reachable nt T s -> inv_shape nt s /\ inv_life nt s.
+Proof. intros nt T s Hwf Hr. destruct (life'_reachable nt T s Hwf Hr). split; auto. apply inv_life'_life; auto. Qed.
